@@ -40,37 +40,46 @@ from ..sim import simloop
 ID = "C11"
 LEVEL = "proof"
 ENGINES = ["lean-model", "purediff", "kopfsim"]
+STRENGTH = "partial"   # whole-history clauses only under named guards; three open findings (see LEVEL_TEXT)
 LEVEL_TEXT = (
-    "Lean theorems by induction over the script (no bounds). Per execution, for all limits/records/times: "
-    "temporary and default-mode errors are retried with exactly the requested delay/backoff unless a limit "
+    "Lean theorems by induction over the script (no bounds). UNGUARDED: per execution, for all limits/records/"
+    "times — temporary and default-mode errors are retried with exactly the requested delay/backoff unless a limit "
     "is provably reached, permanent(-mode) errors end the handler, ignored-mode errors count as success, the "
-    "function is not called iff a limit is reached. In EVERY environment (stale event bodies, lost patches, "
-    "kills between the handler call and the patch, restarts anywhere): each invocation is within the limits "
-    "of the record version it was shown and the gate is respected on that version. With record continuity "
-    "(every cycle sees what the previous one stored; restarts between cycles) — named _partial, guard exact, "
-    "four Lean witnesses show the whole-history clauses are false without it (inherent to call-then-patch, "
-    "not a kopf defect; the witnesses are replayed on the real code): every later attempt starts no sooner "
-    "than merge time + delay, at most N invocations, none at runtime >= T, finished handlers never run. "
-    "Progress: a due handler within limits IS invoked with the next retry number; an in-memory loop whose "
-    "function keeps failing ends with a failure record (retries=N; timeout=T with calls >= 1 tick). "
-    "In-memory loops (activities, daemons, timer series) are proved to be instances of the fold; timers over "
-    "their whole life: whole-series refinement to the loop, timeout and spacing laws, a failed series is the "
-    "last (derived from the gate, finding C11-F1 repaired by af4d77a). Sub-handlers: the parent's retry delay "
-    "is the earliest remaining delay of its unfinished children. timeout_failed_for_good_partial (never "
-    "sleeps past T) holds under a sufficient guard (batch merged at once, no pending children), both halves "
-    "shown necessary by witnesses. Tied to the code by a grid on the real execute_handler_once/with_outcome "
-    "(complete in thorough) and closed-loop sequences on the real processing cycle (incl. stale/lost/kill "
-    "steps), kopf.execute, run_activity, _daemon, _timer.")
+    "function is not called iff a limit is reached, a fresh record is invoked iff wait < T and 0 < N; in EVERY "
+    "environment (stale event bodies, lost patches, kills between call and patch, lifecycle skips, restarts "
+    "anywhere) each invocation is within the limits of the record version it was shown and the gate is respected "
+    "on that version; in-memory loops (activities, daemons, timer series: record continuity is a fact there): "
+    "spacing, at most N, none at runtime >= T, never sleep past T, end with a failure record when the function "
+    "keeps failing; one _timer task over its whole life: whole-series refinement to the loop, timeout/spacing "
+    "laws, a failed series is the last (derived from the gate; C11-F1 fixed by af4d77a); the parent's retry "
+    "delay is the earliest remaining delay of its unfinished children. "
+    "GUARDED (_partial, guard = record continuity: every cycle starts from the record its last attempt "
+    "produced; sufficient, not necessary): for change handlers and sub-handlers every later attempt starts no "
+    "sooner than merge + delay, at most N invocations, none at runtime >= T, finished handlers never run, the "
+    "retry number counts own attempts, a 'retries' verdict only after N invocations. FALSE of the code without "
+    "the guard — open finding C11-F2 (by design: call-then-patch is not atomic; 4 Lean witnesses replayed on the "
+    "code) — so the clause 'also across operator restarts / every restart position' holds for restarts between "
+    "completed cycles only. timeout_failed_for_good_partial ('never sleeps past T') under a sufficient guard "
+    "(retry outcomes merged at once, no pending children), both halves shown necessary by witnesses. "
+    "FALSE clauses recorded as open findings with Lean witnesses: C11-F3 the timeout is counted from the record's "
+    "creation, not from the first attempt (timer with idle >= timeout is never invoked; a handler behind a slow "
+    "sibling is failed with zero invocations), C11-F4 a timer that failed for good is invoked again after a "
+    "re-spawn (filter mismatch / pause). ORACLE/TIE ONLY: several-handler activities and the parent/child "
+    "composition (S tie + oracle), 'recorded as failed for good' as an event for change handlers (needs a next "
+    "cycle: C03). Tied to the code by a grid on the real execute_handler_once/with_outcome (complete in "
+    "thorough) and closed-loop sequences on the real processing cycle (all_at_once and asap; stale/lost/kill "
+    "steps also for sub-handlers), kopf.execute, run_activity, _daemon, _timer (with idle), spawn/match_daemons.")
 TIE = ("D: bounded-exhaustive grid on the real execute_handler_once / execute_handlers_once / with_outcome "
        "(exhaustive in thorough); S: closed-loop attempt sequences under virtual time with restarts, stale "
-       "event bodies, lost patches and kills between call and patch (change handlers, handler pairs), "
-       "sub-handlers via kopf.execute (incl. the children's delay), run_activity (one handler: the loop; several "
-       "handlers with interleaving retries: one fold per handler over the loop's iterations, records of "
-       "handlers not executed in an iteration must stay untouched), _daemon, _timer (whole life, idle iterations "
-       "included)")
+       "event bodies, lost patches and kills between call and patch (change handlers, handler pairs under "
+       "all_at_once and under the default asap lifecycle, sub-handlers via kopf.execute incl. the children's "
+       "delay), run_activity (one handler: the loop; several handlers with interleaving retries: one fold per "
+       "handler, records of handlers not executed in an iteration must stay untouched), _daemon, _timer (whole "
+       "life, idle iterations included, with and without idle=), a timer through the real spawn_daemons / "
+       "match_daemons re-spawn layer")
 THEOREMS = [("Kopf.Props.C11", "Kopf.C11." + n) for n in [
     # one execution
-    "temp_retried", "temp_retried_unlimited", "perm_final", "ignored_done", "arbitrary_by_mode", "limits_refuse",
+    "temp_retried", "perm_final", "ignored_done", "arbitrary_by_mode", "limits_refuse", "fresh_invoked_iff",
     # every environment
     "env_invocation_within_seen_limits", "env_gate_respected", "run_is_continuous_env",
     "kill_mid_exceeds_retries_witness", "stale_view_breaks_delay_witness", "lost_patch_exceeds_timeout_witness",
@@ -79,15 +88,16 @@ THEOREMS = [("Kopf.Props.C11", "Kopf.C11." + n) for n in [
     "finished_never_runs_partial", "delay_respected_partial", "delay_respected_succ_partial", "final_is_last_partial",
     "retries_bound_partial", "retries_bound_scratch_partial", "retries_bound_tight",
     "timeout_bound_partial", "timeout_refuses", "timeout_failed_for_good_partial", "timeout_sleep_past_witness",
-    "timeout_sleep_past_lag_witness", "restart_invariant",
-    "retry_counts_own_attempts_partial", "uninvoked_state_unchanged", "retries_verdict_only_after_N_partial",
+    "timeout_sleep_past_lag_witness", "timed_out_before_first_invocation_witness",
+    "retry_counts_own_attempts_partial", "retries_verdict_only_after_N_partial",
     # progress
-    "due_is_invoked", "retried_as_event", "loop_ends_failed_retries", "loop_ends_failed_timeout",
+    "loop_ends_failed_retries", "loop_ends_failed_timeout",
     # in-memory loops, timers, sub-handlers
-    "loop_is_run", "loop_retries_bound", "loop_timeout_bound", "loop_delay_respected",
+    "loop_is_run", "loop_retries_bound", "loop_timeout_bound", "loop_delay_respected", "loop_never_sleeps_past_timeout",
     "timer_failed_never_runs", "timer_failure_is_last", "timer_retry_lt", "timer_retry_steps",
     "timer_invocations_bound", "timer_series_is_loop", "timer_timeout_bound", "timer_delay_respected",
-    "children_delay_is_earliest",
+    "timer_first_of_series_invoked_partial", "timer_idle_timeout_never_invoked_witness",
+    "timer_respawn_runs_again_witness", "children_delay_is_earliest",
 ]]
 RULE = ("grid: errors mode x default mode x timeout {None,0,10s,70s} x runtime band (before / look-ahead "
         "boundary -1q / boundary / T-1q / T / after) x call duration x retries {None,0,1,4} x stored retries "
@@ -95,46 +105,55 @@ RULE = ("grid: errors mode x default mode x timeout {None,0,10s,70s} x runtime b
         "record shapes (fresh / delayed past / == now / future / success / failure), plus a day grid (ages around "
         "and beyond whole days, timeouts of 0.5 s .. 2 days, delays > 1 day; always complete); histories: random "
         "limits, scripts of (raised kind, delay, duration), wake policy per cycle (exact / early / late / at once / "
-        "restart with downtime), activities with two handlers whose retries interleave (long vs short delays), "
-        "for change handlers and pairs also environment steps (stale body k versions "
-        "back / lost patch / kill between call and patch), 30 % long flavour (day-scale times, fractional "
-        "timeouts), six driver kinds; a case is distinct & non-trivial when its abstraction (limits class, raised "
-        "kind, which branch the outcome took, gate) is new and not the plain-success path")
+        "restart with downtime), activities with two handlers whose retries interleave, pairs under all_at_once or "
+        "asap, for change handlers, pairs and sub-handlers also environment steps (stale body k versions back / "
+        "lost patch / kill between call and patch), timers with and without idle= (idle below and above the "
+        "timeout), timers stopped by a filter mismatch and re-spawned, 30 % long flavour (day-scale times, "
+        "fractional timeouts), seven driver kinds; a case is distinct & non-trivial when its abstraction (limits "
+        "class, raised kind, which branch the outcome took, gate) is new and not the plain-success path")
 TRUSTED = [
     "SimLoop virtual time + wall clock shim (harness/sim/simloop.py); times are multiples of 2**-6 s so that "
-    "float seconds, microsecond datetimes and ISO strings are exact",
+    "float seconds, microsecond datetimes and ISO strings are exact (rounding of timestamps is never exercised)",
     "the stub handler stands for user code: it raises the scripted exception after sleeping the scripted duration",
     "the closed loop around the change handlers re-implements the 12 lines of process_changing_cause that "
     "call State.from_storage/with_purpose/with_handlers/execute_handlers_once/with_outcomes/store and applies "
-    "the produced merge-patch to a dict body (no API server); when the next cycle happens, which version of "
-    "the body it is shown and whether its patch lands is the adversary's choice",
+    "the produced merge-patch to a dict body (no API server, no purge/extras/re-purposing: C02's subject); when "
+    "the next cycle happens, which version of the body it is shown and whether its patch lands is the adversary's choice",
 ]
 ASSUMPTIONS = [
     "asyncio.CancelledError and non-Exception BaseExceptions escalate out of execute_handler_once and are not "
     "outcomes (out of the property's scope)",
     "kopf has no per-invocation timeout: `timeout=` is only checked before a call and in the look-ahead",
     "a timer starts a new retry series only after a succeeded one; a series that failed for good is the last "
-    "thing the timer invokes (af4d77a); the bounds are per series and, through timer_invocations_bound, per life",
+    "thing ONE _timer task invokes (af4d77a); across a re-spawn of the task it is not (open finding C11-F4)",
     "the spacing guarantee is relative to the moment the outcome was merged (now of with_outcome), which is "
     "not earlier than the end of the call",
-    "record continuity is a GUARD of the whole-history theorems named _partial (delay_respected, retries_bound, "
-    "timeout_bound, finished_never_runs, final_is_last): every cycle reads the record stored by the previous one "
-    "and restarts/kills happen after the cycle's patch was applied. Under a stale event body, a lost patch or a "
-    "kill between the handler call and the patch the handler is re-invoked on the record it is shown (N+1 "
-    "invocations, immediate re-invocation, `started` never stored): proved by four witnesses, replayed on the "
-    "real code (corpus 40-43); inherent to a non-transactional call-then-patch, not recorded as a kopf defect",
-    "timeout_failed_for_good_partial ('the handler never sleeps past its timeout') is proved under the sufficient "
-    "guard: the batch is merged at once (lag 0) and the handler is not a parent waiting for sub-handlers; each "
-    "half is necessary (timeout_sleep_past_witness: HandlerChildrenRetry has no look-ahead; "
-    "timeout_sleep_past_lag_witness: the look-ahead is computed when the call ends, `delayed` when the whole batch "
-    "is merged); the failure is then recorded at the first cycle after `delayed`; no invocation starts after T "
-    "in any case. The oracle checks the clause on the real code exactly under that guard",
+    "record continuity (every cycle starts from the record the handler's last attempt produced) is the guard of "
+    "the whole-history theorems named _partial; it is sufficient, not necessary (a lost patch of a refused "
+    "attempt, or a stale view equal to the current record, is harmless). Without it the clauses are false of the "
+    "code: open finding C11-F2 (by design), four Lean witnesses replayed on the real code (corpus 40-43). The "
+    "oracle checks every clause on every history; a failure at a point where the observed record chain is "
+    "broken is reported under C11-F2's signature, anywhere else it is a violation",
+    "timeout_failed_for_good_partial ('the handler never sleeps past its timeout') is proved under the SUFFICIENT "
+    "guard: every retry outcome is merged at once (lag 0) and the handler is not a parent waiting for "
+    "sub-handlers; each half is necessary (timeout_sleep_past_witness, timeout_sleep_past_lag_witness); the exact "
+    "condition is the invariant 'every retry outcome has merged + delay < started + T', which the in-memory loops "
+    "satisfy unconditionally (loop_never_sleeps_past_timeout). The oracle checks the clause under that guard",
+    "the timeout clause is checked by the oracle as the property words it ('T after the first attempt'): a "
+    "handler failed by timeout without any invocation is reported under C11-F3's signature (timeouts <= 0 are "
+    "treated as degenerate and not reported)",
     "one monotone clock: now = basetime + loop.time() with basetime = utcnow() - loop.time(); clock skew or steps "
     "between operator instances (before/after a restart) are outside the model and the harness",
-    "lifecycles other than all_at_once may skip an awake handler in a cycle: for the safety theorems that is a "
-    "cycle that did not happen (its time is folded into the next dt); the harness uses all_at_once",
+    "lifecycles: a cycle in which the handler is awake but not selected (asap, one_by_one) is the model step "
+    "`skipped`: no attempt, but a NEW record is stored (its `started` begins there; with finding C11-F3 the "
+    "handler can then be failed by timeout without an invocation); for an existing record it is time passing. "
+    "The harness runs pairs under all_at_once and asap; randomized/shuffled are not exercised",
     "'is recorded as failed for good' as an event is proved for the self-driven in-memory loops; for change "
     "handlers it needs a next cycle, which is the environment's (C03's subject)",
+    "not modelled: `initial_delay=` of daemons/timers (a sleep before the state is created), idle-only timers "
+    "(no interval), nested sub-handlers and kopf.execute called twice in one parent call, non-zero "
+    "patch_and_check latency in _daemon/_timer (the stub's patch is empty), purpose switches of records",
+    "handler ids are distinct (outcomes are keyed by id)",
 ]
 
 TPS = 1024
@@ -449,6 +468,9 @@ def oracle_sequence(l: dict, default_errors: str, default_backoff: int, events: 
         broken_upto.append(anyb)
         prev = a
 
+    def idx(a: dict) -> int:
+        return next(i for i, x in enumerate(atts) if x is a)
+
     def report(shape: str, msg: str, broken: bool) -> None:
         if broken:
             bad.append((F2_SHAPE, f"[{shape}] {msg} — the handler had been shown a record that does not continue its "
@@ -457,17 +479,17 @@ def oracle_sequence(l: dict, default_errors: str, default_backoff: int, events: 
             bad.append((shape, msg))
 
     if N is not None and len(inv) > max(N, 0):
-        k = atts.index(inv[max(N, 0)])
+        k = idx(inv[max(N, 0)])
         report("more-invocations-than-retries", f"{len(inv)} invocations with retries={N}", broken_upto[k])
     if inv and T is not None:
         late = [a for a in inv if a["time"] - inv[0]["time"] > T]
         if late:
             report("invocation-later-than-timeout", f"an invocation started {late[0]['time'] - inv[0]['time']} "
-                   f"ticks after the first one, timeout={T}", broken_upto[atts.index(late[0])])
+                   f"ticks after the first one, timeout={T}", broken_upto[idx(late[0])])
     if from_scratch:
         for i, a in enumerate(inv):
             if a["retry"] != i:
-                report("retry-kwarg-sequence", f"invocation #{i} got retry={a['retry']}", broken_upto[atts.index(a)])
+                report("retry-kwarg-sequence", f"invocation #{i} got retry={a['retry']}", broken_upto[idx(a)])
                 break
         # failed for good BY RETRIES only after N invocations of its own
         done_inv = 0
@@ -1725,6 +1747,7 @@ def run_histories(ctx: Ctx, hists: list[dict], use_model: bool = True) -> None:
             continue
         ctx.count("history.kind", hist["kind"])
         ctx.count("history.flavour", hist.get("flavour", "corpus"))
+        ctx.count("history.lifecycle", hist.get("lifecycle", "all_at_once") if hist["kind"] in ("change", "pair", "sub") else "n/a")
         for chk in checks:
             atts = [e for e in chk["events"] if e["ev"] == "attempt"]
             nontrivial = any((not e["out"]["final"]) or e["out"]["exc"] != "none" for e in atts) or \
